@@ -123,7 +123,12 @@ ChunkedRunOK(e) ==
   /\ EndsOK(e.tail, [j \in 1..nt |-> e.ends[e.run + j] - e.run * ul], 1, 1)
   /\ e.left = 0
 
+(* A connection that is quiet between two requests (real sockets, plain and  *)
+(* TLS): it is served before and after, however long the pause (C03, C15).    *)
+IdleOK(e) == e.before = "pong" /\ e.after = "pong"
+
 Check(e) == CASE e.ev = "rt"      -> RoundTripOK(e)
+              [] e.ev = "idle"    -> IdleOK(e)
               [] e.ev = "chunkedrun" -> ChunkedRunOK(e)
               [] e.ev = "chunked" -> ChunkedOK(e)
               [] e.ev = "float"   -> FloatOK(e)
